@@ -325,7 +325,8 @@ PROPS['C08'] = dict(
     facts=['*'],
     theorems=['tie_bin_search', 'tie_bin_search_total', 'fact_translated_all', 'C08_estimateGas', 'C08_estimateGas_capped', 'C08_stale_cap_returns_unexecutable', 'searchBound_le_cap', 'fact_estimate_gas_assigns', 'C08_estimate', 'C08_estimate_range', 'C08_no_commit_no_write', 'binSearch_spec', 'step_orig', 'fact_commit_literals'],
     engines=[dict(name='binsearch', test='TestEngineBinsearch', quick=3000, thorough=200000, thorough_seeds=2, functional=True),
-             dict(name='query', test='TestEngineQuery', quick=100, thorough=2500, thorough_seeds=2, no_model=True)],
+             dict(name='query', test='TestEngineQuery', quick=100, thorough=2500, thorough_seeds=2, no_model=True),
+             dict(name='indexer', test='TestEngineIndexer', quick=40, thorough=600, thorough_seeds=2, no_model=True, own_oracles_only=True)],   # oracle C08-trace-predecessors only: debug_traceTransaction of the real JSON-RPC backend replays exactly the executed Ethereum transactions in front of the traced one (mixed blocks)
     rule='E-binsearch: the real evmtypes.BinSearch on arbitrary executable tables (monotone, random, mostly failing, gapped, with consensus errors) vs the Lean binSearch. E-query: on committed states, eth_call / estimateGas / traceTx (with predecessors, commit=true inside the query context) / traceBlock / evm, cpc, feemarket, vauth gRPC queries through BaseApp.Query, then Simulate, CheckTx new and re-check of the same call as a signed transaction (9 call kinds: storage set / clear, logs, a gas-dependent branch, ERC-20 precompile transfer, precompile writes with a reverted frame, self-destruct, creation, revert); every key and value of every KV store plus the working hash is digested before and after each request; the call is then delivered (same gas limit) and once more with the estimate as gas limit; non-trivial = every line; distinct by op-line hash',
     assumptions=['check-state vs committed-state separation, the query multistore branch and the simulate branch are BaseApp mechanisms (trusted SDK code) — exercised by the store digest around every request',
                  'prediction (same return data, logs, gas) is asserted for calls that read neither block context nor sender balance; it is tied by delivery, not proved: both paths run ApplyMessageWithConfig (regenerated call-site table)',
